@@ -8,7 +8,7 @@ import random
 from vlib.programs import gen_program, Built, World, playback_function_for, clone
 from vlib.values import InterruptLike
 
-EVENTS = ['record_and_replay', 'failed_replay', 'interrupted_in_body', 'discarded', 'raises', 'replay_imported']
+EVENTS = ['record_and_replay', 'failed_replay', 'interrupted_in_body', 'discarded', 'raises', 'replay_imported', 'raises_unencodable']
 
 
 def give_past(rec, spy, seed, ctx=None, like=None):
@@ -37,6 +37,8 @@ def give_past(rec, spy, seed, ctx=None, like=None):
             faults = {('main', 1): 'discard'}
         elif ev == 'raises':
             faults = {('main', 1): 'raise_user'}
+        elif ev == 'raises_unencodable':
+            faults = {('main', rng.choice([0, 1])): 'raise_user_unencodable'}     # an exception of a service class that cannot be encoded THIS time
         qb = Built(q, rec, World(q['seed_world'] + 1, raise_rate=0.0), faults=faults)
         qb.run('past')
         saves = [e for e in spy.log[n0:] if e[0] == 'save']
